@@ -53,6 +53,137 @@ def documented_chain(table, name):
     return out
 
 
+# ---------------------------------------------------------------------------------------------------------------
+# the callback registry: `callbacks`, subscribe(), unsubscribe(), notify() of supervisor/events.py as *shapes* that
+# Model/Events.lean interprets (`subscribe`, `unsubscribe`, `delivers`).  Props/C09 proves over them that unsubscribing
+# (type, callback) removes exactly that pair and leaves every other subscription alone.
+
+def _registry_funcs():
+    import ast
+    from extract import REPO, find_func
+    tree = ast.parse(open(os.path.join(REPO, 'supervisor', 'events.py')).read())
+    return ast, tree, find_func
+
+
+def _strip_doc(ast, body):
+    return [st for st in body if not (isinstance(st, ast.Expr) and isinstance(st.value, ast.Constant))]
+
+
+def _keep_condition(ast, e, tvar, cvar, tparam, cparam):
+    """the keep-condition of a filtering comprehension over (t, c) pairs as a Lean Bool term over
+    `sameType` (t is the unsubscribed type) and `sameCallback` (c equals the unsubscribed callback)"""
+    from extract import Untranslatable
+    src = ast.unparse
+    if isinstance(e, ast.BoolOp):
+        op = ' && ' if isinstance(e.op, ast.And) else ' || '
+        return '(' + op.join(_keep_condition(ast, v, tvar, cvar, tparam, cparam) for v in e.values) + ')'
+    if isinstance(e, ast.UnaryOp) and isinstance(e.op, ast.Not):
+        return '(!' + _keep_condition(ast, e.operand, tvar, cvar, tparam, cparam) + ')'
+    if isinstance(e, ast.Compare) and len(e.ops) == 1:
+        l, r, op = src(e.left), src(e.comparators[0]), e.ops[0]
+        pair = {l, r}
+        pos = isinstance(op, (ast.Eq, ast.Is))
+        if not isinstance(op, (ast.Eq, ast.NotEq, ast.Is, ast.IsNot)):
+            raise Untranslatable('unsubscribe: comparison ' + src(e))
+        if pair == {tvar, tparam}:
+            return 'sameType' if pos else '(!sameType)'          # classes: `is` and `==` agree
+        if pair == {cvar, cparam}:
+            if isinstance(op, (ast.Is, ast.IsNot)):
+                # a bound method is a fresh object on every attribute access: `c is callback` is never true
+                return 'false' if pos else 'true'
+            return 'sameCallback' if pos else '(!sameCallback)'
+        if pair == {'(%s, %s)' % (tvar, cvar), '(%s, %s)' % (tparam, cparam)} and isinstance(op, (ast.Eq, ast.NotEq)):
+            return '(sameType && sameCallback)' if pos else '(!(sameType && sameCallback))'
+    raise Untranslatable('unsubscribe: keep-condition not covered: ' + src(e))
+
+
+def registry_tables():
+    from extract import Untranslatable
+    ast, tree, find_func = _registry_funcs()
+    src = ast.unparse
+    out = ['', '-- supervisor/events.py: the callback registry `callbacks` (a list of (type, callback) pairs)',
+           'inductive SubscribeShape where', '  | append      -- callbacks.append((type, callback))',
+           '  | prepend     -- callbacks.insert(0, (type, callback))', 'deriving DecidableEq, Repr',
+           'inductive UnsubscribeShape where', '  | removeFirst -- callbacks.remove((type, callback)): the first equal pair',
+           '  | filter      -- callbacks[:] = [(t, c) for (t, c) in callbacks if <keep>]', 'deriving DecidableEq, Repr',
+           'inductive NotifyTest where', '  | isinstance  -- if isinstance(event, type): callback(event)',
+           '  | exactType   -- if type(event) is type / event.__class__ is type', 'deriving DecidableEq, Repr']
+    # ---- subscribe
+    f = find_func(tree, 'subscribe')
+    params = [a.arg for a in f.args.args]
+    body = _strip_doc(ast, f.body)
+    shape = None
+    if len(params) == 2 and len(body) == 1 and isinstance(body[0], ast.Expr) and isinstance(body[0].value, ast.Call):
+        c = body[0].value
+        pair = '(%s, %s)' % tuple(params)
+        if src(c.func) == 'callbacks.append' and [src(a) for a in c.args] == [pair]:
+            shape = 'append'
+        elif src(c.func) == 'callbacks.insert' and [src(a) for a in c.args] == ['0', pair]:
+            shape = 'prepend'
+    out.append('-- subscribe:%d  %s' % (f.lineno, '; '.join(src(st) for st in body).replace('\n', ' ')))
+    if shape:
+        out.append('def subscribeShape : SubscribeShape := .%s' % shape)
+    else:
+        out.append('-- subscribeShape  UNTRANSLATED (expected callbacks.append((type, callback)))')
+    # ---- unsubscribe
+    f = find_func(tree, 'unsubscribe')
+    params = [a.arg for a in f.args.args]
+    body = _strip_doc(ast, f.body)
+    out.append('-- unsubscribe:%d  %s' % (f.lineno, '; '.join(src(st) for st in body).replace('\n', ' ')))
+    ushape, keep = None, 'true'
+    try:
+        if len(params) == 2 and len(body) == 1:
+            st = body[0]
+            pair = '(%s, %s)' % tuple(params)
+            if isinstance(st, ast.Expr) and isinstance(st.value, ast.Call) and src(st.value.func) == 'callbacks.remove' \
+                    and [src(a) for a in st.value.args] == [pair]:
+                ushape = 'removeFirst'
+            elif isinstance(st, ast.Assign) and len(st.targets) == 1 and src(st.targets[0]) == 'callbacks[:]' \
+                    and isinstance(st.value, ast.ListComp) and len(st.value.generators) == 1:
+                g = st.value.generators[0]
+                if isinstance(g.target, ast.Tuple) and len(g.target.elts) == 2 and all(isinstance(x, ast.Name) for x in g.target.elts) \
+                        and src(g.iter) in ('callbacks', 'list(callbacks)', 'callbacks[:]') \
+                        and src(st.value.elt) == src(g.target) and not g.is_async:
+                    tv, cv = g.target.elts[0].id, g.target.elts[1].id
+                    conds = [_keep_condition(ast, c, tv, cv, params[0], params[1]) for c in g.ifs]
+                    keep = ' && '.join(conds) if conds else 'true'
+                    ushape = 'filter'
+    except Untranslatable as ex:
+        out.append('-- unsubscribeShape  UNTRANSLATED (%s)' % ex)
+        ushape = 'error'
+    if ushape in ('removeFirst', 'filter'):
+        out.append('def unsubscribeShape : UnsubscribeShape := .%s' % ushape)
+        out.append('-- the keep-condition of the filter (unused by removeFirst)')
+        out.append('def unsubKeep (sameType sameCallback : Bool) : Bool := %s' % keep)
+    elif ushape is None:
+        out.append('-- unsubscribeShape  UNTRANSLATED (expected callbacks.remove((type, callback)) or a filtering comprehension)')
+    # ---- notify
+    f = find_func(tree, 'notify')
+    params = [a.arg for a in f.args.args]
+    body = _strip_doc(ast, f.body)
+    out.append('-- notify:%d  %s' % (f.lineno, '; '.join(src(st) for st in body).replace('\n', ' ')))
+    test = None
+    if len(params) == 1 and len(body) == 1 and isinstance(body[0], ast.For) and not body[0].orelse:
+        lp = body[0]
+        if isinstance(lp.target, ast.Tuple) and len(lp.target.elts) == 2 and src(lp.iter) in ('callbacks', 'list(callbacks)', 'callbacks[:]') \
+                and len(lp.body) == 1 and isinstance(lp.body[0], ast.If) and not lp.body[0].orelse:
+            tv, cv = src(lp.target.elts[0]), src(lp.target.elts[1])
+            iff = lp.body[0]
+            calls = [src(s) for s in iff.body]
+            if calls == ['%s(%s)' % (cv, params[0])]:
+                t = src(iff.test)
+                if t == 'isinstance(%s, %s)' % (params[0], tv):
+                    test = 'isinstance'
+                elif t in ('type(%s) is %s' % (params[0], tv), '%s.__class__ is %s' % (params[0], tv),
+                           'type(%s) == %s' % (params[0], tv), '%s.__class__ == %s' % (params[0], tv)):
+                    test = 'exactType'
+    if test:
+        out.append('def notifyTest : NotifyTest := .%s' % test)
+    else:
+        out.append('-- notifyTest  UNTRANSLATED (expected: for type, callback in callbacks: if isinstance(event, type): callback(event))')
+    return out
+
+
 def TABLES():
     from supervisor import events
     ET = events.EventTypes
@@ -82,4 +213,5 @@ def TABLES():
     out.append('-- docs/events.rst: every "``X`` Event Type" section with its "*Subtype Of*" line (document order)')
     out.append('def documented : List (String × Option String) := [%s]' % ', '.join(
         '("%s", %s)' % (n, 'some "%s"' % p if p else 'none') for n, p in doc))
+    out.extend(registry_tables())
     return out
